@@ -83,6 +83,13 @@ def handleC18 : Handler := fun args =>
       if !(Gen.retry_nextWait_safe b m 0 true n 0) then "panic"
       else if feasible b m n w then "yes" else "no"
     | _ => "bad-op"
+  | ["wait-spec", b, m, j, n, w] =>
+    match intArgs [b, m, j, n], w.toInt? with
+    | some [b, m, j, n], some w =>
+      if b < 1 || m < 1 then "bad-op"
+      else if specWaitOk b m (j != 0) n w then "accept" else "reject"
+    | some [_, _, _, _], none => s!"reject {w}"
+    | _, _ => "bad-op"
   | ["retry", cfg, retries, outs, ctx] =>
     match parseCfg cfg, retries.toInt?, parseOutcomes outs, parseCtx ctx with
     | some c, some r, some script, some (entry, evs) => showOut (runScript c r script entry evs [])
